@@ -31,7 +31,8 @@ def run(ck):
 
     if ck.replay_path:
         rp = json.load(open(ck.replay_path))
-        loads = [(tuple(c["target"]), c["kind"], sc.unhex(c["stream_hex"])) for c in (rp.get("cases") or [rp])]
+        loads = [(tuple(c["target"]), c["kind"], sc.unhex(c["stream_hex"]), c.get("flags", "-"))
+                 for c in (rp.get("cases") or [rp])]
     else:
         # 1. valid serialisations from the real library
         objs = sc.gen_objects(ck, 4 if ck.thorough else 3)
@@ -44,31 +45,46 @@ def run(ck):
                 ck.add_unshown("correspondence", None, "cannot produce a valid serialisation of %s: %s" % (o, (line or "")[:100]))
                 continue
             data = sc.unhex(f[2])
-            # 2. targets holding unrelated valid content (same type and symbol set)
+            dmg = [("valid", data)] + sc.damage(ck, data, ck.thorough)
+            # 2. targets holding unrelated valid content (same type and symbol set):
+            #    "-"  built by an unrelated history (any shape);
+            #    "s"  of exactly the SHAPE of the serialised object (its own history, every value replaced);
+            #    "2"  unrelated, and load() is given a second, distinct problem object (the snapshot of a
+            #         population includes the problem it is bound to)
             tgt = (o[0], o[1], rnd.randint(1, 2**31 - 1), rnd.choice([1, 4, 9]))
-            loads.append((tgt, "valid", data))
-            for kind, d in sc.damage(ck, data, ck.thorough):
-                loads.append((tgt, kind, d))
+            for kind, d in dmg:
+                loads.append((tgt, kind, d, "-"))
+            for kind, d in dmg:
+                loads.append((o, kind, d, "s"))
+            if o[0].startswith("POP"):
+                sub = dmg if ck.thorough else dmg[:1] + dmg[1:40:3] + dmg[40::9]
+                for kind, d in sub:
+                    loads.append((tgt, kind, d, "2"))
+                    loads.append((o, kind, d, "s2"))
 
-    hl = ["LOAD %s %d %d %d %s" % (t + (sc.hexs(d),)) for t, kind, d in loads]
+    hl = ["LOAD %s %d %d %d %s %s" % (t + (sc.hexs(d), fl)) for t, kind, d, fl in loads]
     hout, crashes = sc.run_harness_chunks(harness, hl)
 
     mlines, owner = [], []
-    for i, (t, kind, d) in enumerate(loads):
+    for i, (t, kind, d, fl) in enumerate(loads):
         f = sc.fields(hout[i])
-        if not f or f[0] != "OK" or len(f) < 8:
+        if not f or f[0] != "OK" or len(f) < 9:
             continue
-        mlines.append((t[1], "LOAD %s %s %s" % (t[0], sc.hexs(d), f[2])))
+        # the model decodes with the symbol set load() was given
+        mlines.append((t[1] + (2 if "2" in fl else 0), "LOAD %s %s %s" % (t[0], sc.hexs(d), f[2])))
         owner.append(i)
     mout = dict(zip(owner, sc.run_model(model, sset, mlines)))
 
     hist, nfail, nalloc = {}, 0, 0
-    for i, (t, kind, d) in enumerate(loads):
+    for i, (t, kind, d, fl) in enumerate(loads):
         ck.count()
         ty = t[0]
         hist[ty] = hist.get(ty, 0) + 1
         ho = hout[i]
-        replay = {"target": list(t), "kind": kind, "stream_hex": sc.hexs(d), "stream": d.decode("latin1")[:3000],
+        replay = {"target": list(t), "kind": kind, "flags": fl, "stream_hex": sc.hexs(d), "stream": d.decode("latin1")[:3000],
+                  "target_is": {"-": "built by an unrelated history", "s": "same shape as the serialised object, other content",
+                                "2": "unrelated; load() called with a second problem object",
+                                "s2": "same shape; load() called with a second problem object"}.get(fl, fl),
                   "harness_line": hl[i][:200], "impl": (ho or "")[:1500]}
         if ho is not None and ho.startswith("CRASH"):
             rep = crashes.get(i, "")
@@ -86,13 +102,15 @@ def run(ck):
                              % (ty, kind, (ho or "")[:60]), replay)
             continue
         f = sc.fields(ho)
-        if f[0] != "OK" or len(f) < 8:
+        if f[0] != "OK" or len(f) < 9:
             ck.add_diff({"target": list(t), "kind": kind}, "", ho, "harness protocol")
             continue
         ret, dump0, save0, valid0, dump1, save1, valid1 = f[1:8]
+        bound = f[8].split()
+        hist[ty + ":" + fl] = hist.get(ty + ":" + fl, 0) + 1
         if ret == "0":
             nfail += 1
-            ck.nontriv((ty, kind.split(":")[0], d))
+            ck.nontriv((ty, fl, kind.split(":")[0], d))
             # ---- oracle
             problems = []
             if dump1 != dump0:
@@ -101,6 +119,9 @@ def run(ck):
                 problems.append("target saves to different bytes")
             if valid1 != valid0:
                 problems.append("is_valid() changed from %s to %s" % (valid0, valid1))
+            if len(bound) == 2 and bound[0] != bound[1]:
+                problems.append("the population is now bound to another problem object (get_problem(): %s -> %s)"
+                                % (bound[0], bound[1]))
             if problems:
                 replay.update({"before": dump0, "after": dump1, "problems": problems})
                 ck.add_violation("%s:failed-load-modifies-target" % ty,
@@ -111,7 +132,7 @@ def run(ck):
                        "target_unchanged": dump1 == dump0})
         want = "%s %s" % (ret, dump1)
         if mout.get(i) != want:
-            ck.add_diff({"target": list(t), "kind": kind, "stream_hex": sc.hexs(d)}, (mout.get(i) or "")[:600], want[:600],
+            ck.add_diff({"target": list(t), "kind": kind, "flags": fl, "stream_hex": sc.hexs(d)}, (mout.get(i) or "")[:600], want[:600],
                         "model and implementation disagree on load of a damaged stream")
     ck.coverage["per_type"] = hist
     ck.coverage["failed_loads"] = nfail
@@ -124,5 +145,5 @@ def run(ck):
              + ("every byte prefix" if ck.thorough else "prefixes at every token boundary +-1 (sampled to 70 for long streams)")
              + ", deletion of single tokens and digit-count preserving substitutions (all 9s, all 0s, each digit +1, a "
                "non-numeric token, a lone sign, a damaged exponent), loaded by the real load() into a target of the same "
-               "type built by an unrelated history; non-trivial = the real load() reported failure; distinct = distinct "
+               "type: one built by an unrelated history, one of exactly the shape of the serialised object with every value replaced, and (populations) both again with load() given a second, distinct problem object, the problem a population is bound to being part of the snapshot; non-trivial = the real load() reported failure; distinct = distinct "
                "(type, damage kind, stream)")
